@@ -28,6 +28,8 @@ import PdshVerif.Hostlist.LemmasFind
 import PdshVerif.Hostlist.LemmasUniq
 import PdshVerif.Hostlist.LemmasFindFirst
 import PdshVerif.Hostlist.EditRefine
+import PdshVerif.Hostlist.EditRefineText
+import PdshVerif.Hostlist.EditRefineUniq
 
 namespace PdshVerif.C16
 open PdshVerif.Hostlist PdshVerif.Gen
@@ -165,6 +167,50 @@ theorem edit_refines_push (cfg : Cfg) (hfs : cfg.fixIterSuffix = true) (e : EL) 
     (fresh : Bool) (h : Ref cfg e p c fresh) (r : HRange) (hr : r.Good) (hnotend : c < p.names.length) :
     Ref cfg (pushRangeE e r) { p with names := p.names ++ r.hosts } c false :=
   push_refines cfg hfs e p c fresh h r hr hnotend
+
+/-- PUSH, operation TEXT level: `hostlist_push(hl, "expr")` on the text of a well-formed expression
+    (words `pre[lo-hi,..]suffix` or plain names, any separators; C01's parser theorem) while the
+    iterator has something left: the answer is the number of hosts of the mathematical expansion
+    `expand₁`, the list grows by exactly these names and the iterator will reach them.
+    `hx` (optional reading): when the specification's own reader `exprHosts` gives this expansion for
+    the text — checked by execution in C01/C15, `Lean string-level spec vs AST-level expander` — this
+    is `EditSpec.push`. -/
+theorem edit_refines_push_text (cfg : Cfg) (hfs : cfg.fixIterSuffix = true) (e : EL) (p : EditSpec.PL) (c : Nat)
+    (fresh : Bool) (h : Ref cfg e p c fresh) (hlt : c < p.names.length)
+    (lead : Str) (items : List (Spec.Word × Str))
+    (hl : lead.all Spec.sepChar = true) (hok : Spec.sepsOK items = true)
+    (hw : ∀ q ∈ items, q.1.WF = true) (hd : ∀ q ∈ items, wordDom cfg q.1) :
+    ∃ e', pushE cfg e (Spec.render lead items) =
+        .ok (((Spec.expand₁ (items.map (·.1))).length : Int), .none, e') ∧
+      Ref cfg e' { p with names := p.names ++ Spec.expand₁ (items.map (·.1)) } c false ∧
+      (EditSpec.exprHosts (Spec.render lead items) = some (Spec.expand₁ (items.map (·.1))) →
+        EditSpec.push p (Spec.render lead items) =
+          ((Spec.expand₁ (items.map (·.1))).length, { p with names := p.names ++ Spec.expand₁ (items.map (·.1)) })) := by
+  obtain ⟨e', h1, h2⟩ := push_text_refines cfg hfs e p c fresh h hlt lead items hl hok hw hd
+  refine ⟨e', h1, h2, ?_⟩
+  intro hx
+  unfold EditSpec.push
+  rw [hx]
+
+/-- UNIQ with the iterator live: whatever list `hostlist_uniq` leaves, IF it is free of duplicates
+    (the open finding F16-UNIQ is exactly the case where it is not: mixed widths, digit-ending
+    prefixes), it is an admissible result for the plain list — every distinct name once, none lost,
+    none invented — the counter is right and the iterator starts over at the first host.
+    `hreset`: F16-UNIQ-NORESET repaired, or the list has at least two records; `hb`: D26 repaired or
+    low bounds below 2^31; fewer than 2^31 hosts (`int` counters). -/
+theorem edit_refines_uniq (cfg : Cfg) (hfs : cfg.fixIterSuffix = true) (e : EL) (p : EditSpec.PL) (c : Nat)
+    (fresh : Bool) (h : Ref cfg e p c fresh)
+    (hb : cfg.fixCmpTrunc = true ∨ ∀ r ∈ e.ranges, r.lo < 2147483648) (hsm : e.hosts.length < 2147483648)
+    (hreset : cfg.fixUniqReset = true ∨ 2 ≤ e.rs.length)
+    (e' : EL) (hu : uniqE cfg e = some e') (hnd : e'.hosts.Nodup) :
+    EditSpec.uniq p e'.hosts = some ⟨e'.hosts, [(0, 0)]⟩ ∧ Ref cfg e' ⟨e'.hosts, [(0, 0)]⟩ 0 false :=
+  uniq_refines cfg hfs e p c fresh h hb hsm hreset e' hu hnd
+
+/-- `hostlist_uniq` keeps the counter and the record identities right (any list, any iterators) -/
+theorem uniq_count (cfg : Cfg) (e e' : EL) (hg : e.Good) (hid : e.IdsOk)
+    (hb : cfg.fixCmpTrunc = true ∨ ∀ r ∈ e.ranges, r.lo < 2147483648) (hsm : e.hosts.length < 2147483648)
+    (h : uniqE cfg e = some e') : e'.nhosts = (e'.hosts.length : Int) ∧ e'.IdsOk :=
+  ⟨(uniqE_keep cfg e e' hg hid hb hsm h).1.2, (uniqE_keep cfg e e' hg hid hb hsm h).2⟩
 
 /-! ### iterator scenarios (the recorded defects and their repairs) -/
 /-- run `hostlist_next` n times on iterator k -/
